@@ -22,8 +22,8 @@ var c16Assets = []string{"BTC", "BTCe", "BTCelys", "BTCelysx", "ETH", "ETHband",
 var c16Sources = []string{"elys", "band", "x", "ys", "lys", "e", "elysx", "bandx", "zzz"}
 
 type c16Op struct {
-	Kind   string `json:"kind"`          // feed | feedmulti | setactive | delfeeder | addfeeder | rmfeeder | endblock | lookup | denomlookup | params | assetinfo | rminfo
-	Who    int    `json:"who,omitempty"` // account index (0..2 users, 3 = feeder)
+	Kind   string `json:"kind"`                   // feed | feedmulti | setactive | delfeeder | addfeeder | rmfeeder | endblock | lookup | denomlookup | params | assetinfo | rminfo
+	Who    int    `json:"who,omitempty"`          // account index (0..2 users, 3 = feeder)
 	More   []int  `json:"more_targets,omitempty"` // addfeeder / rmfeeder: further list entries (account indexes; duplicates and unregistered accounts allowed)
 	Asset  string `json:"asset,omitempty"`
 	Source string `json:"source,omitempty"`
